@@ -21,7 +21,7 @@ ASSUMPTIONS = [
     "argument values are ints and strings, for which Python equality and equality of the serialized form coincide",
     "TASK/ARGUMENTS mode with the raise option and different arguments is left open by the statement (either reuse or error accepted, but nothing may change on error)",
 ]
-REQUIRED_HOOKS = ["submissions", "reuses_expected", "fresh_expected", "registered_per_key_checks", "raise_expected"]
+REQUIRED_HOOKS = ["submissions", "reuses_expected", "fresh_expected", "registered_per_key_checks", "raise_expected", "rejected_requests"]
 
 MODES = [
     ("DISABLED", (), False), ("TASK", (), False), ("ARGUMENTS", (), False), ("ARGUMENTS", (), True),
@@ -97,8 +97,10 @@ def run_history(case, rng, apps, V, hooks, distinct):
     had_reuse = had_fresh_after_claim = False
     claimed_any = False
     nops = rng.randint(20, 60)
-    kvals = ["a", "b", 1, 2, "L" * 12, "M" * 1100] if case.get("big") else ["a", "b", 1, 2]
-    vvals = [0, 1, "x", "v" * 14] if case.get("big") else [0, 1, "x"]
+    # 'big': every size class of a serialized argument - short, just over a tiny threshold, a few hundred characters (inline under the
+    # default threshold but long for an index column), above the default threshold (externalised)
+    kvals = ["a", "b", 1, 2, "L" * 12, "S" * 300, "T" * 700, "M" * 1100] if case.get("big") else ["a", "b", 1, 2]
+    vvals = [0, 1, "x", "v" * 14, "u" * 420] if case.get("big") else [0, 1, "x"]
     for _ in range(nops):
         r = rng.random()
         if r < 0.62:
@@ -179,6 +181,28 @@ def run_history(case, rng, apps, V, hooks, distinct):
                     had_fresh_after_claim = True
             elif first[0] == "inv":
                 had_reuse = True
+        elif r < 0.68:
+            # a request on a still REGISTERED invocation that the lifecycle rejects (no such edge): it must leave the registration as it was,
+            # so the following submissions of that key are still collapsed onto it
+            cand = [i for i, s_ in enumerate(inv_status) if s_ == "REGISTERED"]
+            if not cand:
+                continue
+            idx = rng.choice(cand)
+            target = rng.choice(["RUNNING", "SUCCESS", "KILLED", "REROUTED", "RETRY"])
+            trail.append(["rejected-request", idx, target])
+            raised = {}
+            for kind, app in apps.items():
+                set_thread_ctx(app, ctxs[kind])
+                try:
+                    app.orchestrator.set_invocation_status(ids[kind][idx], InvocationStatus[target], ctxs[kind])
+                    raised[kind] = False
+                except Exception:
+                    raised[kind] = True
+                finally:
+                    clear_thread_ctx(app)
+            if not all(raised.values()):
+                return   # the request went through on some backend: that is C01's subject; this history no longer follows the model
+            hooks["rejected_requests"] += 1
         elif r < 0.85:
             # claim one invocation per backend (queue order is the same in both)
             trail.append(["claim"])
